@@ -39,6 +39,20 @@ type JDam struct {
 }
 
 func recBytes(i, n int) []byte {
+	if i%4 == 3 && n >= 64 && i < 1000 {
+		// a payload that is itself a well-formed journal stream of small records: a reader that
+		// loses its framing inside it yields records that were never written
+		var inner bytes.Buffer
+		w := journal.NewWriter(&inner)
+		for j := 0; inner.Len() < n; j++ {
+			ww, _ := w.Next()
+			ww.Write([]byte(fmt.Sprintf("embedded-%d-%d", i, j)))
+			w.Flush()
+		}
+		w.Close()
+		b := inner.Bytes()[:n]
+		return b
+	}
 	b := make([]byte, n)
 	h := uint32(i*2654435761 + 12345)
 	for j := range b {
